@@ -26,6 +26,12 @@ class UserErr(Exception):
     def __hash__(self):
         return hash(type(self))
 
+    def __bool__(self):
+        # ... and they are *falsy* (like an exception class with an empty payload that defines
+        # __len__): whether something failed must never be decided by the truth value of the
+        # exception object
+        return False
+
 
 class UserErrA(UserErr):
     pass
